@@ -17,7 +17,7 @@ func RandPolicyOpsIdem(r *rand.Rand) []*Op {
 	var out []*Op
 	for _, o := range RandPolicyOps(r) {
 		switch o.Kind {
-		case "AC", "RW", "UN":
+		case "AC", "RW", "UN", "ZERO":
 			continue
 		case "AE":
 			var ns []string
@@ -193,6 +193,8 @@ var MatcherHostile = []string{"<", ">", "\"", "=", "`", "\x00", "\n", " ", "&", 
 
 func isRuleOp(o *Op) bool {
 	switch o.Kind {
+	case "ZERO":
+		return false
 	case "AE", "AEM", "AA", "AS", "USM", "DA", "AC":
 		return true
 	}
@@ -219,7 +221,12 @@ func flipCase(r *rand.Rand, xs []string) []string {
 // multi-name calls sometimes split.
 func PermuteHistory(r *rand.Rand, ops []*Op) []*Op {
 	var rules, switches []*Op
+	zero := false
 	for _, o := range ops {
+		if o.Kind == "ZERO" {
+			zero = true
+			continue
+		}
 		cp := *o
 		switch cp.Kind {
 		case "AE", "SK", "AK", "US":
@@ -245,6 +252,9 @@ func PermuteHistory(r *rand.Rand, ops []*Op) []*Op {
 	r.Shuffle(len(rules), func(i, j int) { rules[i], rules[j] = rules[j], rules[i] })
 	// interleave, keeping the order inside each class
 	var out []*Op
+	if zero {
+		out = append(out, &Op{Kind: "ZERO"})
+	}
 	i, j := 0, 0
 	for i < len(rules) || j < len(switches) {
 		if i < len(rules) && (j >= len(switches) || r.Intn(2) == 0) {
